@@ -97,6 +97,91 @@ def _hash_case(draw):
     return {"ops": ops}
 
 
+def check_model_cache(case):
+    """Cache settings made on a diffusion model (useCache, setHashSensitivity) govern every later flux evaluation,
+    whatever else is done to the model in between (clearCache, reset + setup, more settings).
+    Observation: the stub backend logs every (x, T) it is asked for."""
+    from .. import harness_diff as HD
+    out = Out()
+    sc = case["sc"]
+    m, therm = HD.build(sc)
+    m.setup()
+    base = np.array(m.x, dtype=float)
+    use, sens = True, 4           # documented defaults
+    if "cache" in sc:
+        use = bool(sc["cache"])
+    if "hash_s" in sc:
+        sens = int(sc["hash_s"])
+    history = []                  # every (x, T) the backend was ever asked for
+    evals = reused_total = 0
+    toggled = False
+    for op in case["ops"]:
+        name = op[0]
+        if name == "cache":
+            m.useCache(op[1])
+            use = bool(op[1])
+            toggled = True
+        elif name == "sens":
+            m.setHashSensitivity(op[1])
+            sens = int(op[1])
+            toggled = True
+        elif name == "clear":
+            m.clearCache()
+        elif name == "reset":
+            m.reset()
+            m.setup()
+            out.label("reset")
+        elif name == "eval":
+            x = np.clip(base + op[1], 1e-6, 0.95 / max(1, base.shape[0]))
+            m.x = x.copy()
+            n0 = len(therm.log)
+            m.getFluxes()
+            new = therm.log[n0:]
+            T = np.asarray(m.temperatureParameters(m.z, m.t), dtype=float)
+            evals += 1
+            unit = 10.0 ** (-sens)
+            k = 0
+            for i in range(x.shape[1]):
+                xi, Ti = x[:, i], float(T[i])
+                if k < len(new) and np.array_equal(new[k][0], xi) and new[k][1] == Ti:
+                    history.append(new[k])
+                    k += 1
+                    continue
+                # node i was served from the cache
+                reused_total += 1
+                if not use:
+                    out.fail("model_cache_used_while_off", "evaluation %d: caching was switched off with useCache(False) but node %d (x=%r, T=%r) was not evaluated by the backend" % (evals, i, xi.tolist(), Ti), ops=[o[0] for o in case["ops"]])
+                    return out
+                ok = any(np.all(np.abs(hx - xi) < unit * (1 + 1e-9)) and abs(hT - Ti) < unit * (1 + 1e-9) for hx, hT in history)
+                if not ok:
+                    out.fail("model_cache_reuse_outside_key", "evaluation %d: node %d (x=%r, T=%r) was served from the cache at precision %d although no composition within one unit of that precision had been evaluated before" % (evals, i, xi.tolist(), Ti, sens), ops=[o[0] for o in case["ops"]])
+                    return out
+            if k != len(new):
+                out.fail("model_cache_unexpected_calls", "evaluation %d: %d backend calls could not be matched to the nodes of the profile" % (evals, len(new) - k))
+                return out
+    out.label("cache_on" if use else "cache_off", "sens_%d" % sens)
+    if reused_total:
+        out.label("reuse_seen")
+    out.nt(toggled and evals >= 2)
+    return out
+
+
+@st.composite
+def _model_cache_case(draw):
+    from . import c04
+    sc = draw(c04._scenario(cap=5))
+    sc["model"] = "single"
+    sc["T"] = ["const", sc["T"][1] if sc["T"][0] != "array" else sc["T"][2][0]]
+    sc.pop("prior_bc", None)
+    op = st.one_of(
+        st.booleans().map(lambda b: ["cache", b]), st.integers(1, 9).map(lambda s: ["sens", s]),
+        st.just(["clear"]), st.just(["reset"]), st.just(["reset"]),
+        st.tuples(st.sampled_from([0.0, 1.0, -1.0, 3.0]), st.integers(-9, -2)).map(lambda t: ["eval", t[0] * 10.0 ** t[1]]),
+        st.tuples(st.sampled_from([0.0, 1.0, -1.0, 3.0]), st.integers(-9, -2)).map(lambda t: ["eval", t[0] * 10.0 ** t[1]]),
+    )
+    return {"sc": sc, "ops": draw(st.lists(op, min_size=2, max_size=14))}
+
+
 PREDICATES = {}
 try:
     from . import c09_real as _r
@@ -110,6 +195,9 @@ def clauses():
         Clause("hashtable", _hash_case, check_hash, quick=6000, thorough=200000,
                rule="generator: 2-25 operations from {add(x,T), get(x,T), setHashSensitivity(1-9), enableCaching(bool), clear} around a base point with perturbations 1e-9..0.1 in composition and 1e-9..437 K in temperature (T in [200,2500] K, 1-3 components); "
                     "model: list of stored entries; non-trivial: a value was retrieved or caching was toggled"),
+        Clause("model_cache", _model_cache_case, check_model_cache, quick=1500, thorough=40000,
+               rule="generator: single-phase diffusion model on the logging stub backend, 2-14 operations from {useCache(bool), setHashSensitivity(1-9), clearCache, reset+setup, flux evaluation at the profile shifted by 0 or +-{1,3}e-9..1e-2}; "
+                    "oracle: with caching off every node of every evaluation reaches the backend; a node served from the cache has an earlier backend evaluation within one unit of the configured precision in every coordinate; settings survive clearCache and reset; non-trivial: a setting was changed and >= 2 evaluations"),
     ]
     try:
         from . import c09_real
